@@ -170,7 +170,7 @@ Definition raise_ (abort : bool) (e : err) (is_send : bool) (out : list outcome)
    leaves nothing on the wire (the number is already allocated). *)
 Definition send_tail (abort : bool) (m : msg) (rest : list instr) (out : list outcome) (w : world)
            (k : list outcome -> world -> res) : res :=
-  if (m_ty m =? T_TESTREQ) && negb (treq w) then raise_ abort EConn true out w rest k
+  if (m_ty m =? T_TESTREQ) && (negb (treq w) || negb (m_id m =? 0)) then raise_ abort EConn true out w rest k
   else match number m w with
        | inl e => raise_ abort e true out w rest k
        | inr (n, w1) =>
@@ -190,6 +190,9 @@ Definition send_head (abort : bool) (m : msg) (rest : list instr) (out : list ou
   | GGo => send_tail abort m rest out w k
   end.
 
+(* For a TestRequest m_id stands for its TestReqID(112) RELATIVE to the probe send_test_req() registered:
+   0 = that id, anything else = a different or absent id.  send_msg lets a TestRequest through only while a probe
+   is pending and only with the registered id; otherwise FIXConnectionError, nothing allocated, nothing written. *)
 Definition testreq_msg : msg := mkMsg T_TESTREQ 0 None false false.
 
 (* run `code` up to the next suspension; `tail` is the code that follows it in the task, `k` runs that
